@@ -8,8 +8,8 @@ USES_FACTS = False
 DRIVER = "shootmodel_rt"
 
 MANIFEST = dict(
-    text="Lean 4 theorems over a model of the retry loop (all n, all infinite outcome scripts): model = spec, bound n+1, stop at first acceptable, exhaustion returns the last response and error, trace = call (sleep call)*. Model tied to middleware/retry.go by running the real middleware in-process on every script of length n+1 over six outcome classes for n = 0..5 (exhaustive) plus timing and random legs. Every script is sent three times through ONE middleware instance (the model says the answers are equal: no state survives a request), the passes differing in the kind of the scripted transport errors (plain, net.Error timeouts, wrapped context sentinels) and in the state of the request's context (live, already cancelled, expiring during the first wait).",
-    note="Lean kernel + standard axioms; the correspondence (harness cmd/rt + Lean driver) ties the model to the code; time.Sleep lower bound assumed.",
+    text="Lean 4 theorems over a model of the retry loop (all n, all infinite outcome scripts): model = spec, bound n+1, stop at first acceptable, exhaustion returns the last response and error, trace = call (sleep call)*. Model tied to middleware/retry.go by running the real middleware in-process on every script of length n+1 over six outcome classes for n = 0..5 (exhaustive) plus timing legs (the gap between two calls is at least d and, for every script, at most d + 150 ms -- an overlong gap is believed only when reproduced five times in a row on the script run alone) and random legs. Every script is sent three times through ONE middleware instance (the model says the answers are equal: no state survives a request), the passes differing in the kind of the scripted transport errors (plain, net.Error timeouts, wrapped context sentinels) and in the state of the request's context (live, already cancelled, expiring during the first wait).",
+    note="Lean kernel + standard axioms; the correspondence (harness cmd/rt + Lean driver) ties the model to the code; time.Sleep(d) assumed to return after at least d and, on a case run alone five times, at least once within d + 150 ms.",
     technique="Lean 4 proof (induction over the loop) + exhaustive model/implementation correspondence",
     design="5/C20")
 
@@ -18,7 +18,7 @@ EDGE = ["r499", "r500", "r501", "r100", "r599", "er200", "er499", "r0", "r999"]
 
 
 def mk(cid, n, dus, script):
-    return {"id": cid, "n": n, "dus": dus, "script": script,
+    return {"id": cid, "n": n, "dus": dus, "script": script, "detail": {"delay_us": dus},
             "sexp": "(case %s retry %d (script %s))" % (cid, n, " ".join(script)),
             "line": "%s %d %d %s" % (cid, n, dus, " ".join(script)),
             "key": "%d|%s" % (n, " ".join(script)),
@@ -40,6 +40,14 @@ def gen_cases(ctx):
         for sc in itertools.product(ALPHA, repeat=n + 1):
             cases.append(mk("t%d" % k, n, 1000, list(sc)))
             k += 1
+    # a delay long enough to tell d from 2d (upper AND lower bound on the gap): all scripts for n <= 1, failing scripts for n = 2
+    for n in (0, 1):
+        for sc in itertools.product(ALPHA, repeat=n + 1):
+            cases.append(mk("u%d" % k, n, 200000, list(sc)))
+            k += 1
+    for sc in (["e", "r503", "r200"], ["r503", "er502", "e"], ["er502", "e", "r503"]):
+        cases.append(mk("u%d" % k, 2, 200000, sc))
+        k += 1
     # random: larger n, boundary statuses, scripts longer and shorter than n+1
     for _ in range(ctx.n(3000, 30000)):
         n = ctx.rng.choice([0, 1, 2, 3, 5, 7, 9, 12, 20])
@@ -71,6 +79,12 @@ def run_cases(ctx, cases):
     if p.returncode != 0:
         raise core.InfraError("rt retry failed: " + p.stderr[-2000:])
     impl = core.parse_impl_lines(p.stdout)
+    # once an overlong wait (gap > d + 150 ms, reproduced five times in a row on the case run alone) is confirmed the harness
+    # does not run the remaining scripts: they are no evidence either way
+    skipped = {cid for cid, im in impl.items() if "skipped" in im}
+    if skipped:
+        cases[:] = [c for c in cases if c["id"] not in skipped]
+        ctx.notes.append("%d scripts not run after a confirmed overlong wait" % len(skipped))
     model = core.model_run(ctx, [c["sexp"] for c in cases])
     # with d = 0 a wait cannot be observed: compare the trace without the sleep marks there
     for c in cases:
@@ -91,11 +105,12 @@ def run(ctx, obl):
     core.compare_cases(ctx, res, cases, impl, model,
                        nontrivial=lambda c, m, im: int(m["model"].get("calls", "0")) >= 2)
     res.rule = ("exhaustive: every outcome script of length n+1 over {e, er502, r200, r302, r404, r503} for n = 0..%d with d = 0 "
-                "(%d cases); the same for small n with d = 1 ms where the wait before each retry is observed as a lower bound on the "
-                "gap between calls; plus seeded random scripts with n up to 20 and boundary statuses (499/500/501/0/999, response+error). "
+                "(%d cases); the same for small n with d = 1 ms and, for n <= 2, d = 200 ms, where the wait before each retry is observed: the "
+                "gap between calls is at least d (lower bound) and, for every script incl. d = 0, not more than d + 150 ms (upper bound, "
+                "believed only when reproduced five times on the case run alone); plus seeded random scripts with n up to 20 and boundary statuses (499/500/501/0/999, response+error). "
                 "non-trivial = distinct (n, script) with at least one retry") % (ctx.n(5, 6), nex)
     res.exhaustive = True
-    res.assumptions = ["time.Sleep(d) returns no earlier than d (timing used as a lower bound only)",
+    res.assumptions = ["time.Sleep(d) returns no earlier than d and, in at least one of five sequential runs, no later than d + 150 ms",
                        "a RoundTripper may return a non-nil response together with an error (modelled as errResp)"]
     return res
 
@@ -112,7 +127,7 @@ def replay(ctx, payload):
     s = sexp.parse(case)
     n = int(s[3])
     script = [str(x) for x in s[4][1:]]
-    c = mk("replay", n, 1000, script)
+    c = mk("replay", n, int((payload.get("detail") or {}).get("delay_us", 1000)), script)
     impl, model = run_cases(ctx, [c])
     print("impl :", impl.get("replay"))
     print("model:", model["replay"]["model"])
